@@ -86,6 +86,7 @@ type Unit struct {
 	rangeStack []Term
 	sentinels  map[string]Term
 	lockSnaps  map[string]*State
+	inlineSites []token.Pos // call positions (outermost first) of the inlined callees being executed
 }
 
 type closure struct {
